@@ -223,7 +223,7 @@ func canonInt(v string, base int) string {
 }
 
 var stringVals = []string{"a", "v1", "hello", "", "=a", "a=b", "x y", `"q w"`, "-", "é", "k:v", "世界", `"a\"b"`, "5", "true", "a:b:c", "'s'", "`t`"}
-var oddStringVals = []string{"--", "-5", "-x", "--x", "--alpha", `"`, `"abc`, `"a"b`, "-é", "---", `"\n"`, `"\x41"`, `"é"`, "\xff", "a\x00b", "!bang"}
+var oddStringVals = []string{"--", "-5", "-x", "--x", "--alpha", `"`, `"abc`, `"a"b`, "-é", "---", `"\n"`, `"\x41"`, `"é"`, "\xff", "a\x00b", "!bang", "50%d", "%s", "100%"}
 
 func validValue(r *rand.Rand, o *OptNode) string {
 	if len(o.Choices) > 0 {
@@ -309,7 +309,7 @@ func invalidValue(r *rand.Rand, o *OptNode) string {
 	case vt == "uint":
 		return pick(r, []string{"-1", "x", "", "18446744073709551616", "+1"})
 	case isIntType(vt):
-		return pick(r, []string{"x", "", "9223372036854775808", "-9223372036854775809", "1.5", "1_000", "0x1f", " 1", "12a", "0b101", "0o17", "0x10", "1_0"})
+		return pick(r, []string{"x", "", "5%d", "9223372036854775808", "-9223372036854775809", "1.5", "1_000", "0x1f", " 1", "12a", "0b101", "0o17", "0x10", "1_0"})
 	case vt == "float64":
 		return pick(r, []string{"x", "", "1e400", "1.5.2"})
 	case vt == "duration":
@@ -818,7 +818,7 @@ func perturb(r *rand.Rand, argv []string, scope []scopeOpt, t *Tree) []string {
 		at = r.Intn(len(argv))
 		return ins(argv[at])
 	case 5:
-		return ins(pick(r, []string{"", "-", "---x", "--=", "-=", "-=x", "word", "add", "\xff\xfe", "-\xff", "--\xff=1", "--help", "-h"}))
+		return ins(pick(r, []string{"", "-", "---x", "--=", "-=", "-=x", "word", "add", "\xff\xfe", "-\xff", "--\xff=1", "--help", "-h", "--100%sure", "-%", "%v", "--%d=%s"}))
 	case 6: // command word of some other level
 		return ins(pick(r, cmdPool))
 	case 7: // a value-less option at the end
